@@ -1,0 +1,127 @@
+//! Verification hooks (feature `verif-hooks`, off by default).
+//!
+//! Thin public wrappers that *call* crate-private kernels so that out-of-tree
+//! verification harnesses can reach them. Nothing here is used by the library itself.
+
+use tls_codec::{DeserializeBytes, Serialize};
+
+use crate::Error;
+use crate::extension::NostrGroupDataExtension;
+use crate::extension::types::TlsNostrGroupDataExtension;
+
+/// Raw TLS form of the group-data extension
+pub struct RawExt(pub(crate) TlsNostrGroupDataExtension);
+
+/// `NostrGroupDataExtension::as_raw`
+pub fn ext_as_raw(x: &NostrGroupDataExtension) -> RawExt {
+    RawExt(x.as_raw())
+}
+
+/// `NostrGroupDataExtension::from_raw`
+pub fn ext_from_raw(r: RawExt) -> Result<NostrGroupDataExtension, Error> {
+    NostrGroupDataExtension::from_raw(r.0)
+}
+
+/// Build a raw extension from its wire fields
+#[allow(clippy::too_many_arguments)]
+pub fn raw_ext(
+    version: u16,
+    nostr_group_id: [u8; 32],
+    name: Vec<u8>,
+    description: Vec<u8>,
+    admin_pubkeys: Vec<[u8; 32]>,
+    relays: Vec<Vec<u8>>,
+    image_hash: Vec<u8>,
+    image_key: Vec<u8>,
+    image_nonce: Vec<u8>,
+    image_upload_key: Vec<u8>,
+) -> RawExt {
+    RawExt(TlsNostrGroupDataExtension {
+        version,
+        nostr_group_id,
+        name,
+        description,
+        admin_pubkeys,
+        relays,
+        image_hash,
+        image_key,
+        image_nonce,
+        image_upload_key,
+    })
+}
+
+/// TLS bytes of a raw extension
+pub fn raw_ext_to_bytes(r: &RawExt) -> Vec<u8> {
+    r.0.tls_serialize_detached().unwrap_or_default()
+}
+
+/// TLS parse of a raw extension; returns the value and the number of unread bytes
+pub fn raw_ext_from_bytes(b: &[u8]) -> Option<(RawExt, usize)> {
+    TlsNostrGroupDataExtension::tls_deserialize_bytes(b)
+        .ok()
+        .map(|(r, rest)| (RawExt(r), rest.len()))
+}
+
+/// TLS bytes of the extension exactly as they are placed in the MLS group context
+pub fn ext_to_bytes(x: &NostrGroupDataExtension) -> Vec<u8> {
+    x.as_raw().tls_serialize_detached().unwrap_or_default()
+}
+
+/// Parser the library applies to the bytes found in the MLS group context
+pub fn ext_from_bytes(b: &[u8]) -> Result<NostrGroupDataExtension, Error> {
+    NostrGroupDataExtension::verif_deserialize_bytes(b)
+}
+
+/// `EpochSnapshotManager::parse_snapshot_name` reduced to the recovered (epoch, commit id, timestamp)
+pub fn parse_snapshot_name(
+    name: &str,
+    group_id: &crate::GroupId,
+    created_at_unix: u64,
+) -> Option<(u64, nostr::EventId, u64)> {
+    crate::epoch_snapshots::EpochSnapshotManager::verif_parse_snapshot_name(
+        name,
+        group_id,
+        created_at_unix,
+    )
+}
+
+/// `encrypted_media::crypto::build_hkdf_context`
+#[cfg(feature = "mip04")]
+pub fn media_hkdf_context(
+    scheme_label: &[u8],
+    file_hash: &[u8; 32],
+    mime_type: &str,
+    filename: &str,
+    suffix: &[u8],
+) -> Vec<u8> {
+    crate::encrypted_media::crypto::verif_build_hkdf_context(
+        scheme_label,
+        file_hash,
+        mime_type,
+        filename,
+        suffix,
+    )
+}
+
+/// `encrypted_media::crypto::build_aad`
+#[cfg(feature = "mip04")]
+pub fn media_aad(
+    scheme_label: &[u8],
+    file_hash: &[u8; 32],
+    mime_type: &str,
+    filename: &str,
+) -> Vec<u8> {
+    crate::encrypted_media::crypto::verif_build_aad(scheme_label, file_hash, mime_type, filename)
+}
+
+/// `media_processing::validation::validate_filename` as a predicate
+#[cfg(feature = "mip04")]
+pub fn media_filename_ok(filename: &str) -> bool {
+    crate::media_processing::validation::validate_filename(filename).is_ok()
+}
+
+/// `media_processing::validation::validate_mime_type` (canonical form or `None`)
+#[cfg(feature = "mip04")]
+pub fn media_mime_canonical(mime_type: &str) -> Option<String> {
+    crate::media_processing::validation::validate_mime_type(mime_type).ok()
+}
